@@ -360,6 +360,46 @@ def _emit_extracted(u, target, args, block, subst, emit):
         # unique obligation name for trait-impl methods: <method>@<implementor>
         fname = fname + '@' + re.sub(r'[^A-Za-z0-9_]', '', args['impl'].split(' for ')[-1].split('<')[0]) if ' for ' in args['impl'] else fname + '@' + re.sub(r'[^A-Za-z0-9_]+', '_', args['impl'])[:40]
     fired = set()
+    if 'only_stmt' in args:
+        # statement extraction: the generated function's body is ONE statement (simple or block: `for .. { }`, `if .. { }`) of the real function, found by its leading text;
+        # its free variables become the parameters of the signature the unit states (`sig=`).  `return` inside the statement leaves the generated function, which is what
+        # it does in the enclosing closure / function as far as that statement is concerned.
+        if 'sig' not in args:
+            raise ExtractError(f'only_stmt= needs sig= ({relpath}::{fname})')
+        from rx import lex as _lexS, match_close as _mcS
+        pos = find_stmt(ft.body, args['only_stmt'], int(args.get('stmt_nth', 1)) - 1)
+        if pos is None:
+            raise ExtractError(f'lost anchor: statement `{args["only_stmt"]}` not found in {relpath}::{fname}')
+        toksS = _lexS(ft.body)
+        k0 = next(k for k, t in enumerate(toksS) if t.start >= pos[0] and t.kind not in ('ws', 'lcomment', 'bcomment', 'doc'))
+        depth = 0; endS = None; k = k0
+        while k < len(toksS):
+            t = toksS[k]
+            if t.kind == 'p':
+                if t.text in '([{':
+                    c = _mcS(toksS, k)
+                    if t.text == '{' and depth == 0:
+                        # block statement ends at its closing brace unless an `else` follows
+                        k2 = c + 1
+                        while k2 < len(toksS) and toksS[k2].kind in ('ws', 'lcomment', 'bcomment', 'doc'):
+                            k2 += 1
+                        if k2 < len(toksS) and toksS[k2].kind == 'id' and toksS[k2].text == 'else':
+                            k = k2 + 1; continue
+                        if k2 < len(toksS) and toksS[k2].kind == 'p' and toksS[k2].text == ';':
+                            endS = toksS[k2].end
+                        else:
+                            endS = toksS[c].end
+                        break
+                    k = c + 1; continue
+                if t.text == ';':
+                    endS = t.end; break
+            k += 1
+        if endS is None:
+            raise ExtractError(f'lost anchor: end of statement `{args["only_stmt"]}` not found in {relpath}::{fname}')
+        ft.body = '{\n' + ft.body[pos[0]:endS] + '\n}'
+        ft.sig = args['sig']
+        fname = args.get('as', fname + '__stmt')
+        fired.add('only_stmt[' + args['only_stmt'] + ']')
     sig = rule_R1_R3(ft.sig, fired)
     body = rule_R1_R3(ft.body, fired)
     body = rule_R9(body, fired)
